@@ -107,7 +107,8 @@ def execute(case):
             store.write_blocks_to_disk([b.to_sk_block(led.nodes[i].blk) for i in led.order[1:]])
         node = net.add("miner", "10.0.0.1", cs, 5, disk=disk_if)
         node.cm.started_at = -10 ** 9
-        peers = [simnet.Wire(net, node, host="10.0.3.%d" % (i + 2)) for i in range(3 if case.get("dead_peer") else 2)]
+        # (shared_host: the peers are different nodes behind ONE address -- one machine / one NAT -- told apart by port only)
+        peers = [simnet.Wire(net, node, host="10.0.3.2" if case.get("shared_host") else "10.0.3.%d" % (i + 2)) for i in range(3 if case.get("dead_peer") else 2)]
         for i, w in enumerate(peers):
             w.greet(nonce=900 + i)
         dead = None
@@ -588,7 +589,7 @@ def run(shard, tier, seed):
         case = chainexec.gen_case(rnd, cfg if deepd is None else chainexec.CFGS[3], nb, 0.0, ["C01"], deep=deepd, p_tx=0.6, p_fork=0.3)
         case.update(asm_off=asm_off, found_delay=found_delay, n_pool=n_pool, fee_sel=fee_sel, nonce0=rnd.randrange(1 << 32),
                     second_find=rnd.random() < 0.5, tick_every=rnd.choice([0, 0, 1, 3, 40]), dead_peer=rnd.random() < 0.3,
-                    next_request=rnd.random() < 0.6, net_flush_race=rnd.random() < 0.3, net_flush_fails=rnd.random() < 0.25)
+                    next_request=rnd.random() < 0.6, net_flush_race=rnd.random() < 0.3, net_flush_fails=rnd.random() < 0.25, shared_host=rnd.random() < 0.3)
         try:
             fails, info = execute(case)
         except env.HarnessError as e:
